@@ -5,6 +5,7 @@ from flow import Taint, callee_matches, op_local, prep
 from cfg import cfg_of
 
 META = {
+    "explanation_more": "Also (round 4): the field / variant order written for every record content type equals the pinned wire layout (records use rmp's positional struct form: C12.layout); decoded chunk bytes always become Ok(Chunk::new(bytes)) (C12.chunk.total); no panic-capable site is reachable from the Deserialize / Visitor impls of anything a Request or Response contains (C12.messages.nopanic).",
     "explanation": "Decides: (1) <RecordKind as Serialize> and <RecordKind as Deserialize> are mutually inverse tables, exhaustive over the "
                    "enum's variants, equal to the pinned wire table, every tag < 128 (so the rmp header is [0x91, tag] = RecordHeader::SIZE "
                    "bytes); (2) writer and readers agree on the header offset: try_serialize_record writes header then payload into one buffer, "
